@@ -12,6 +12,7 @@ import numpy as np
 import matplotlib
 
 matplotlib.use("Agg", force=False)
+import matplotlib.colors
 import matplotlib.pyplot as plt
 from matplotlib.quiver import Quiver
 from matplotlib.contour import ContourSet
@@ -38,16 +39,26 @@ CLAUSES = {
     "C20.call": "field.mpl(): scalar image of the out-of-plane component (scalar field: the field itself) with invalid cells hidden, plus arrows of the in-plane components for vector fields, labels set",
     "C20.frame_field": "plotting leaves the field unchanged: bytes of array and valid, dtype, region corners, n, dims, units, vdims, vdim_mapping, unit",
     "C20.frame_aux": "plotting leaves user-supplied filter / colour / lightness fields unchanged (bytes of array and valid, region, n)",
+    "C20.frame_args": "no plotting call modifies an object the caller handed in: the deep snapshots (dict keys in order, nested dicts / lists / tuples / arrays / colormaps / fields) of every argument object - scalar_kw, vector_kw, the values of expanded keyword dicts, vdims, clim, levels, colors, colorwheel_args, figsize - and of every other object of the caller's pool are equal before and after each call of a history",
+    "C20.history_independent": "every call of a history of plotting calls that share argument objects (different fields and the same field, changed by the caller in between or not, one kept plotter object or a new one, one figure or several) hands matplotlib exactly what that call alone does in a fresh world - freshly built equal field, fresh equal arguments, fresh figure: image data / mask / extent / clim / cmap, quiver X/Y/U/V/mask/colour/clim/cmap, the arguments of Axes.contour and the levels, axis and colorbar labels (exact equality); a call refused / failing in the history is refused / fails alone",
     "C20.refuse": "fields with ndim != 2 have no mpl; scalar/contour of a vector field, vector of a scalar or 4-component field, lightness/mpl() of a 4-component field, and filter/colour/lightness fields that are not scalar or not 2-d are refused (an exception, nothing drawn)",
 }
 RULE = ("seeded 2-d fields: scale 10^U(-9.5,3.5) (nm..km) with edge magnitudes differing by up to 100x between the axes, either corner order, n in 1..6 per axis "
         "(anisotropic cells), dims/units names varied, 1-3 components with default / custom vdims and default / permuted / partial / absent vdim_mapping, "
         "masks (none, random) x plot kind (scalar, vector, contour, lightness, mpl()) x multiplier (default, 1e-9..1e3) x filter / colour / lightness field "
-        "(none, same resolution, coarser, finer; cell centres never on a face of the other mesh); non-trivial = at least 2 cells; distinct by (kind, params)")
+        "(none, same resolution, coarser, finer; cell centres never on a face of the other mesh); "
+        "histories: 2-6 successive calls of one entry point (mpl() with shared scalar_kw / vector_kw; mpl.scalar / contour / vector / lightness with a shared expanded keyword dict and shared "
+        "vdims / clim / levels / colors / colorwheel_args / figsize lists, arrays, Colormap objects, shared filter / colour / lightness fields) or of several entry points with refused calls in between, "
+        "on 2-3 fields (1-3 components, each with invalid and valid cells, own mesh or own resolution on a common region) visited in varying orders including the same field twice, "
+        "optionally changed by the caller between two plots (new validity / new values / in-place values), through one kept plotter object or a new one per call, on one figure or several, "
+        "on given axes or axes the library makes; each step against its own oracle and against the same call alone in a fresh world; "
+        "non-trivial = at least 2 cells; distinct by (kind, params)")
 ASSUMPTIONS = [
     "bounded: 2-d meshes of at most 6 cells per axis, seeded sample of geometry / labels / mappings / options",
     "matplotlib (Agg) artists are trusted to report the data they were given: AxesImage.get_array/get_extent, Quiver.X/Y/U/V/Umask/get_array, ContourSet.levels/get_paths; the arguments of Axes.contour are recorded by wrapping the bound method of the Axes instance",
     "colorsys.hls_to_rgb is trusted as the HLS->RGB oracle",
+    "histories: the reference for step k is that step alone with freshly built fields (the caller's changes up to step k applied), fresh argument objects and a fresh figure, run BEFORE the history and in reverse order, in the same process; "
+    "a colormap argument is snapshotted by name, N and its bad / under / over colours; objects reachable from the arguments other than dict / list / tuple / ndarray / Colormap / Field are compared by repr",
     "auxiliary fields of a different resolution live on the same region; resolutions are chosen so that no cell centre of the plotted field lies on a cell face of the auxiliary mesh",
 ]
 
@@ -221,6 +232,210 @@ def _vector_variants(rng, dims):
     return out
 
 
+# --------------------------------------------------------------------------------------------- generators of histories
+_T_S = (1, None, None)
+_T_V2 = (2, None, None)
+_T_V2S = (2, ["u", "v"], [["u", "D1"], ["v", "D0"]])
+_T_V3 = (3, None, [["x", "D0"], ["y", "D1"], ["z", None]])
+_T_V3P = (3, ["p", "q", "r"], [["p", "D1"], ["q", None], ["r", "D0"]])
+_T_V3N = (3, None, None)                      # no mapping: arrows need explicit labels
+_ORDERS = [[0, 1, 2, 0], [0, 1, 0], [1, 0, 2], [0, 0, 1, 1], [2, 1, 0, 1]]
+
+
+def _two_sided_mask(rng, n, p=0.3):
+    """mask description with at least one invalid and one valid cell (computed as _field computes it)"""
+    for _ in range(200):
+        mk = {"seed": int(rng.integers(1 << 30)), "p": p}
+        v = np.random.default_rng(mk["seed"]).random([int(k) for k in n]) >= p
+        if v.any() and not v.all():
+            return mk
+    return mk
+
+
+def _hist_field(rng, g, tmpl, p=0.3, vscale=None, hue=False):
+    nv, vd, mp = tmpl
+    spec = dict(g, nvdim=nv, seed=int(rng.integers(1 << 30)), vscale=float(10.0 ** rng.uniform(-3, 6)) if vscale is None else vscale)
+    spec["mask"] = _two_sided_mask(rng, g["n"], p)
+    if hue and nv == 1:
+        spec["hue"] = True
+    if vd is not None:
+        spec["vdims"] = vd
+    if mp is not None:
+        spec["mapping"] = [[a, {"D0": g["dims"][0], "D1": g["dims"][1]}.get(b, b)] for a, b in mp]
+    return spec
+
+
+def _hist_aux(rng, ns, zeros=None):
+    """auxiliary field description whose resolution suits every field resolution in ns (no cell centre on a face of the aux mesh):
+    the resolution of one of the fields when that is compatible with all others, else odd numbers"""
+    def ok(na):
+        return all((Fraction(2 * i + 1, 2 * k) * ka).denominator != 1 for n in ns for k, ka in zip(n, na) for i in range(k))
+    cand = [list(n) for n in ns if ok(n)]
+    if cand and rng.random() < 0.4:
+        na = cand[int(rng.integers(len(cand)))]
+    else:
+        na = [int(rng.choice([1, 3, 5, 7, 9, 15])) for _ in range(2)]
+    a = {"n": na, "seed": int(rng.integers(1 << 30)), "vscale": float(10.0 ** rng.uniform(-3, 3)), "mode": "shared"}
+    if zeros:
+        a["zeros"] = zeros
+    return a
+
+
+def _history(rng, tmpls, share, pool, aux, calls, nmin=2, nmax=5, p=0.3, vscale=None, hue=False, options=True):
+    """calls: list of (field index, entry, kwargs description, name of the pool dict to **-expand or None, refusal text or None)"""
+    g0 = _geom(rng, nmin=nmin, nmax=nmax)
+    fields = []
+    for t in tmpls:
+        g = dict(g0, n=rng.integers(nmin, nmax + 1, size=2).tolist()) if share else _geom(rng, nmin=nmin, nmax=nmax)
+        fields.append(_hist_field(rng, g, t, p=p, vscale=vscale, hue=hue))
+    ns = [f["n"] for f in fields]
+    auxd = {nm: _hist_aux(rng, ns, zeros=z) for nm, z in aux.items()}
+    pool = dict(pool)
+    steps = []
+    for fi, entry, kw, expand, refused in calls:
+        st = {"field": fi, "entry": entry, "kwargs": dict(kw), "expand": expand, "multiplier": _mult(rng)}
+        if refused:
+            st["refused"] = refused
+        steps.append(st)
+    pr = {"fields": fields, "aux": auxd, "pool": pool, "steps": steps, "same_fig": False, "keep_plotter": False}
+    if options:
+        pr["same_fig"] = bool(rng.random() < 0.4)
+        pr["keep_plotter"] = bool(rng.random() < 0.5)
+        # the caller changes a field between two plots of it
+        again = [k for k, st in enumerate(steps) if any(s["field"] == st["field"] for s in steps[:k])]
+        if again and rng.random() < 0.7:
+            k = again[int(rng.integers(len(again)))]
+            sp = fields[steps[k]["field"]]
+            kind = ["valid", "valid", "array", "array_inplace"][int(rng.integers(4))]
+            if kind == "valid":
+                steps[k]["pre"] = dict(_two_sided_mask(rng, sp["n"], 0.4), what="valid")
+            elif kind == "array":
+                steps[k]["pre"] = {"what": "array", "seed": int(rng.integers(1 << 30))}
+            else:
+                steps[k]["pre"] = {"what": "array_inplace", "factor": -0.5}
+        # the library makes the figure itself from a figsize list of the caller
+        own = [k for k, st in enumerate(steps) if st["entry"] != "contour" and not st.get("refused")]
+        if own and rng.random() < 0.25:
+            pool["figsize"] = [4.0, 3.0]
+            for k in own[:: 2]:
+                steps[k]["own_axes"] = True
+                steps[k]["kwargs"]["figsize"] = _ref("figsize")
+    return "history", pr
+
+
+def _skw_variant(v):
+    """(pool entries, needs aux) for a shared scalar_kw"""
+    return [
+        ({"skw": {"cmap": "viridis", "colorbar": False}}, {}),
+        ({"clim": [-0.7, 1.3], "skw": {"clim": _ref("clim"), "colorbar_label": "shared label"}}, {}),
+        ({"cmapobj": {"__t": "cmap", "name": "coolwarm"}, "skw": {"symmetric_clim": True, "cmap": _ref("cmapobj")}}, {}),
+        ({"skw": {"filter_field": _auxref("filter"), "colorbar": False}}, {"filter": 0.3}),
+        ({"skw": {"filter_field": None, "interpolation": "nearest"}}, {}),
+        ({"skw": {}}, {}),
+        ({}, {}),
+    ][v]
+
+
+def _vkw_variant(v):
+    return [
+        ({"vkw": {"use_color": False}}, {}),
+        ({"vkw": {"use_color": True, "colorbar": True, "colorbar_label": "c", "cmap": "plasma"}}, {}),
+        ({"vkw": {"scale": 2.5, "width": 0.01}}, {}),
+        ({"vclim": [-1.0, 2.0], "vkw": {"color_field": _auxref("color"), "use_color": True, "clim": _ref("vclim")}}, {"color": None}),
+        ({"vdims": ["y", "x"], "vkw": {"vdims": _ref("vdims")}}, {}),
+        ({"vkw": {}}, {}),
+        ({}, {}),
+    ][v]
+
+
+def _history_cases(rng, quick):
+    R = 4 if quick else 20
+    # ---- field.mpl() with shared scalar_kw / vector_kw
+    for rep in range(R):
+        for vs in range(7):
+            vv = (vs * 3 + rep) % 7
+            ps, as_ = _skw_variant(vs)
+            pv, av = _vkw_variant(vv)
+            img = [_T_S, _T_V3] if vv == 4 else [_T_S, _T_V3, _T_V3P]
+            anyt = [_T_S, _T_V2, _T_V3] if vv == 4 else [_T_S, _T_V2, _T_V2S, _T_V3, _T_V3P]
+            tmpls = [img[int(rng.integers(len(img)))], img[int(rng.integers(len(img)))], anyt[int(rng.integers(len(anyt)))]]
+            if rng.random() < 0.5:
+                tmpls = [tmpls[0], tmpls[2], tmpls[1]]
+            pool = dict(ps, **pv)
+            aux = dict(as_, **av)
+            kw = {}
+            if "skw" in pool:
+                kw["scalar_kw"] = _ref("skw")
+            if "vkw" in pool:
+                kw["vector_kw"] = _ref("vkw")
+            order = _ORDERS[int(rng.integers(len(_ORDERS)))]
+            yield _history(rng, tmpls, bool(aux) or rng.random() < 0.3, pool, aux, [(i, "call", kw, None, None) for i in order])
+    # ---- mpl.scalar(**kw)
+    for rep in range(R):
+        for v in range(4):
+            pool, aux = [
+                ({"clim": [-0.7, 1.3], "kw": {"cmap": "viridis", "clim": _ref("clim"), "colorbar": False}}, {}),
+                ({"kw": {"symmetric_clim": True}}, {}),
+                ({"kw": {"filter_field": _auxref("filter"), "colorbar": True, "colorbar_label": "lab"}}, {"filter": 0.3}),
+                ({"cmapobj": {"__t": "cmap", "name": "coolwarm"}, "kw": {"filter_field": _auxref("filter"), "symmetric_clim": True, "cmap": _ref("cmapobj")}}, {"filter": 0.3}),
+            ][v]
+            order = _ORDERS[int(rng.integers(len(_ORDERS)))]
+            yield _history(rng, [_T_S] * 3, bool(aux) or rng.random() < 0.3, pool, aux, [(i, "scalar", {}, "kw", None) for i in order])
+    # ---- mpl.contour(**kw)
+    for rep in range(R):
+        for v in range(4):
+            pool, aux = [
+                ({"levels": [-0.6, -0.1, 0.4], "kw": {"levels": _ref("levels")}}, {}),
+                ({"levels": {"__t": "array", "v": [-0.8, 0.0, 0.3, 0.9]}, "kw": {"levels": _ref("levels"), "filter_field": _auxref("filter")}}, {"filter": 0.15}),
+                ({"colors": ["r", "g", "b", "k"], "kw": {"levels": 4, "colors": _ref("colors"), "colorbar": False}}, {}),
+                ({"kw": {"filter_field": _auxref("filter"), "colorbar": False, "cmap": "viridis"}}, {"filter": 0.15}),
+            ][v]
+            order = _ORDERS[int(rng.integers(len(_ORDERS)))]
+            yield _history(rng, [_T_S] * 3, bool(aux) or rng.random() < 0.3, pool, aux, [(i, "contour", {}, "kw", None) for i in order],
+                           nmin=3, nmax=6, p=0.12, vscale=1.0)
+    # ---- mpl.vector(vdims=..., **kw)
+    for rep in range(R):
+        for v in range(5):
+            pool, aux, kwd, tm = [
+                ({"vdims": ["x", "y"], "kw": {"use_color": False}}, {}, {"vdims": _ref("vdims")}, [_T_V2, _T_V3, _T_V3N]),
+                ({"vdims": ["y", None], "kw": {"use_color": False, "scale": 3.0}}, {}, {"vdims": _ref("vdims")}, [_T_V3N, _T_V2, _T_V3]),
+                ({"clim": [-1.0, 2.0], "cmapobj": {"__t": "cmap", "name": "plasma"}, "kw": {"color_field": _auxref("color"), "clim": _ref("clim"), "cmap": _ref("cmapobj")}},
+                 {"color": None}, {}, [_T_V2, _T_V3, _T_V2S]),
+                ({"vdims": ["z", "x"], "kw": {"use_color": True, "colorbar_label": "y"}}, {}, {"vdims": _ref("vdims")}, [_T_V3N, _T_V3, _T_V3]),
+                ({"kw": {"use_color": True, "colorbar": True}}, {}, {}, [_T_V3, _T_V3P, _T_V3]),
+            ][v]
+            order = _ORDERS[int(rng.integers(len(_ORDERS)))]
+            yield _history(rng, tm, bool(aux) or rng.random() < 0.3, pool, aux, [(i, "vector", kwd, "kw", None) for i in order])
+    # ---- mpl.lightness(clim=..., colorwheel_args=..., **kw)
+    for rep in range(R):
+        for v in range(4):
+            pool, aux, kwd = [
+                ({"clim": [0.2, 0.85]}, {}, {"clim": _ref("clim"), "colorwheel": False}),
+                ({"clim": {"__t": "array", "v": [0.1, 0.9]}}, {"light": None, "filter": 0.3},
+                 {"clim": _ref("clim"), "lightness_field": _auxref("light"), "filter_field": _auxref("filter"), "colorwheel": False}),
+                ({"cw": {"width": 0.6, "height": 0.6, "loc": "upper left"}}, {}, {"colorwheel": True, "colorwheel_args": _ref("cw"), "colorwheel_xlabel": "a"}),
+                ({"kw": {"interpolation": "nearest"}}, {"light": None}, {"lightness_field": _auxref("light"), "colorwheel": False}),
+            ][v]
+            tm = [[_T_S, _T_V2, _T_V3], [_T_V3P, _T_V2S, _T_S], [_T_V3, _T_S, _T_V2], [_T_V2, _T_V3P, _T_V3]][(v + rep) % 4]
+            order = [0, 1] if v == 2 else _ORDERS[int(rng.integers(len(_ORDERS)))]      # the colour wheel is slow
+            yield _history(rng, tm, bool(aux) or rng.random() < 0.3, pool, aux, [(i, "lightness", kwd, "kw" if "kw" in pool else None, None) for i in order], hue=True)
+    # ---- different entry points sharing argument objects, refused calls in between
+    for rep in range(R):
+        tm = [_T_S, _T_V3, _T_S]
+        pool = {"clim": [0.15, 0.9], "kw": {"clim": _ref("clim"), "cmap": "viridis", "colorbar": False}}
+        K, F = _ref("kw"), _auxref("filter")
+        yield _history(rng, tm, True, pool, {}, [
+            (0, "scalar", {}, "kw", None), (1, "call", {"scalar_kw": K}, None, None), (1, "scalar", {}, "kw", "scalar plot of a vector field"),
+            (2, "call", {"scalar_kw": K}, None, None), (1, "lightness", {"clim": _ref("clim"), "colorwheel": False}, None, None), (0, "call", {"scalar_kw": K}, None, None)])
+        yield _history(rng, tm, True, {"fkw": {"filter_field": F}}, {"filter": 0.3}, [
+            (0, "contour", {"filter_field": F}, None, None), (2, "scalar", {}, "fkw", None), (0, "vector", {}, "fkw", "vector plot of a scalar field"),
+            (1, "lightness", {"colorwheel": False}, "fkw", None), (0, "call", {"scalar_kw": _ref("fkw")}, None, None), (1, "call", {"scalar_kw": _ref("fkw")}, None, None)],
+            nmin=3, nmax=5, p=0.12)
+        yield _history(rng, [_T_V3, _T_V2, _T_V3P], True, {"vkw": {"use_color": True, "color_field": _auxref("color")}}, {"color": None}, [
+            (0, "vector", {}, "vkw", None), (1, "call", {"vector_kw": _ref("vkw")}, None, None), (1, "contour", {}, None, "contour plot of a vector field"),
+            (2, "vector", {}, "vkw", None), (0, "call", {"vector_kw": _ref("vkw"), "scalar_kw": {"colorbar": False}}, None, None)])
+
+
 def cases(ctx):
     rng = ctx.rng
     quick = ctx.tier == "quick"
@@ -308,6 +523,8 @@ def cases(ctx):
                  "filter_nvdim2", "filter_ndim3", "filter_ndim1", "color_nvdim3", "color_ndim3", "lightness_field_nvdim2", "lightness_field_ndim3",
                  "contour_filter_nvdim2", "lightness_filter_nvdim3"):
         yield "refuse", dict(g, what=what, seed=int(rng.integers(1 << 30)))
+    # ---- histories of calls that share argument objects
+    yield from _history_cases(rng, quick)
 
 
 # --------------------------------------------------------------------------------------------- checks
@@ -396,6 +613,26 @@ def _new_ax():
     return fig.add_subplot(111)
 
 
+def _verify_image(ctx, ax, f, arr_want, valid, fnz, has_filter, m, clause, what):
+    """the single AxesImage of `ax` against the values `arr_want[i, j]`: extent, orientation, drawn values, hidden cells"""
+    n = [int(k) for k in f.mesh.n]
+    ctx.require(len(ax.images) == 1, clause, "%s: expected exactly one image on the axes" % what, got=len(ax.images))
+    if len(ax.images) != 1:
+        return
+    im = ax.images[0]
+    _check_extent(im, f, m, ctx)
+    A = np.ma.masked_invalid(im.get_array())
+    ok_shape = A.shape == (n[1], n[0])
+    ctx.require(ok_shape, clause, "%s: image array is not (n1, n0)" % what, got=A.shape, n=n)
+    if not ok_shape:
+        return
+    shown = ~np.ma.getmaskarray(A).T
+    data = np.ma.getdata(A).T
+    ctx.require(np.array_equal(data[shown], arr_want[shown]), clause, "%s: a drawn pixel differs from the field value of its cell (transposition / origin / copy)" % what,
+                where=np.argwhere(shown & (data != arr_want))[:5])
+    _require_hidden(shown, valid, fnz, has_filter, ctx, what)
+
+
 def _check_scalar(pr, ctx):
     spec = pr["f"]
     f = _field(spec)
@@ -418,22 +655,60 @@ def _check_scalar(pr, ctx):
         return
     _frame(ctx, f, before, [("filter_field", faux, fb)])
     m = _mult_and_labels(ax, f, pr, ctx)
-    ctx.require(len(ax.images) == 1, "C20.scalar_values", "expected exactly one image on the axes", got=len(ax.images))
-    if len(ax.images) != 1:
+    _verify_image(ctx, ax, f, arr0[..., 0], valid, fnz, faux is not None, m, "C20.scalar_values", "scalar")
+
+
+def _verify_quiver(ctx, ax, f, arr0, valid, m, vdims_arg, use_color, caux0, clause, what, cmode=None):
+    """the single Quiver of `ax`: positions, components (explicit labels or the mapping), hidden arrows, colour array"""
+    n = [int(k) for k in f.mesh.n]
+    qs = [c for c in ax.collections if isinstance(c, Quiver)]
+    ctx.require(len(qs) == 1, clause, "%s: expected exactly one Quiver on the axes" % what, got=len(qs))
+    if len(qs) != 1:
         return
-    im = ax.images[0]
-    _check_extent(im, f, m, ctx)
-    A = np.ma.masked_invalid(im.get_array())
-    ok_shape = A.shape == (n[1], n[0])
-    ctx.require(ok_shape, "C20.scalar_values", "image array is not (n1, n0)", got=A.shape, n=n)
-    if not ok_shape:
+    q = qs[0]
+    N = n[0] * n[1]
+    (c0, c1), (s0, s1) = _centres(f, m)
+    X = np.asarray(q.X, dtype=float).ravel()
+    Y = np.asarray(q.Y, dtype=float).ravel()
+    okshape = X.size == N and Y.size == N and np.asarray(q.U).size == N and np.asarray(q.V).size == N
+    ctx.require(okshape, "C20.positions", "%s: quiver has not one arrow per cell" % what, got=X.size, want=N)
+    if not okshape:
         return
-    shown = ~np.ma.getmaskarray(A).T
-    data = np.ma.getdata(A).T
-    want = arr0[..., 0]
-    ctx.require(np.array_equal(data[shown], want[shown]), "C20.scalar_values", "a drawn pixel differs from the field value of its cell (transposition / origin / copy)",
-                where=np.argwhere(shown & (data != want))[:5])
-    _require_hidden(shown, valid, fnz, faux is not None, ctx, "scalar")
+    X, Y = X.reshape(n[1], n[0]).T, Y.reshape(n[1], n[0]).T           # -> [i, j]
+    ctx.require(np.all(np.abs(X - c0[:, None]) <= 8 * EPS * s0) and np.all(np.abs(Y - c1[None, :]) <= 8 * EPS * s1), "C20.positions",
+                "%s: arrow positions differ from the cell centres / multiplier" % what, gotx=X[:, 0], wantx=c0, goty=Y[0, :], wanty=c1)
+    ctx.require(str(q.pivot) in ("mid", "middle"), "C20.positions", "%s: arrows do not pivot about their middle" % what, got=q.pivot)
+    # components
+    vd = list(f.vdims)
+    names = list(vdims_arg) if vdims_arg is not None else _rmap(f)
+    U = np.asarray(np.ma.getdata(q.U), dtype=float).reshape(n[1], n[0]).T
+    V = np.asarray(np.ma.getdata(q.V), dtype=float).reshape(n[1], n[0]).T
+    mask = np.broadcast_to(np.asarray(getattr(q, "Umask", False)), (N,)).reshape(n[1], n[0]).T | np.isnan(U) | np.isnan(V)
+    shown = ~mask
+    wantU = arr0[..., vd.index(names[0])] if names[0] is not None else np.zeros(n)
+    wantV = arr0[..., vd.index(names[1])] if names[1] is not None else np.zeros(n)
+    ctx.require(np.array_equal(U[shown], wantU[shown]) and np.array_equal(V[shown], wantV[shown]), clause,
+                "%s: arrow components differ from the mapped field components of the cell" % what, names=names, vdims=vd)
+    ctx.require(not np.any(shown & ~valid), "C20.hidden_invalid", "%s: an invalid cell has an arrow" % what, cells=np.argwhere(shown & ~valid)[:5])
+    ctx.require(np.all(shown[valid]), "C20.hidden_invalid", "%s: a valid cell has no arrow" % what, cells=np.argwhere(~shown & valid)[:5])
+    # colour
+    C = q.get_array()
+    if caux0 is not None and use_color:
+        wantC = _sample(caux0, n)
+    elif use_color and f.nvdim == 3:
+        rest = [v for v in vd if v not in names]
+        wantC = arr0[..., vd.index(rest[0])] if len(rest) == 1 else None
+    else:
+        wantC = None
+    if wantC is None:
+        ctx.require(C is None, "C20.vector_colour", "%s: a colour array was handed over although colouring is off / impossible" % what,
+                    got=None if C is None else np.asarray(C)[:6])
+    else:
+        okc = C is not None and np.asarray(C).size == N
+        if okc:
+            Cd = np.asarray(np.ma.getdata(C), dtype=float).reshape(n[1], n[0]).T
+            okc = np.array_equal(Cd[shown], wantC[shown])
+        ctx.require(okc, "C20.vector_colour", "%s: colour array differs from the third component / the colour field at the cell centres" % what, mode=cmode)
 
 
 def _check_vector(pr, ctx):
@@ -461,65 +736,12 @@ def _check_vector(pr, ctx):
         return
     _frame(ctx, f, before, [("color_field", caux, cb)])
     m = _mult_and_labels(ax, f, pr, ctx)
-    qs = [c for c in ax.collections if isinstance(c, Quiver)]
-    ctx.require(len(qs) == 1, "C20.vector_components", "expected exactly one Quiver on the axes", got=len(qs))
-    if len(qs) != 1:
-        return
-    q = qs[0]
-    N = n[0] * n[1]
-    (c0, c1), (s0, s1) = _centres(f, m)
-    X = np.asarray(q.X, dtype=float).ravel()
-    Y = np.asarray(q.Y, dtype=float).ravel()
-    okshape = X.size == N and Y.size == N and np.asarray(q.U).size == N and np.asarray(q.V).size == N
-    ctx.require(okshape, "C20.positions", "quiver has not one arrow per cell", got=X.size, want=N)
-    if not okshape:
-        return
-    X, Y = X.reshape(n[1], n[0]).T, Y.reshape(n[1], n[0]).T           # -> [i, j]
-    ctx.require(np.all(np.abs(X - c0[:, None]) <= 8 * EPS * s0) and np.all(np.abs(Y - c1[None, :]) <= 8 * EPS * s1), "C20.positions",
-                "arrow positions differ from the cell centres / multiplier", gotx=X[:, 0], wantx=c0, goty=Y[0, :], wanty=c1)
-    ctx.require(str(q.pivot) in ("mid", "middle"), "C20.positions", "arrows do not pivot about their middle", got=q.pivot)
-    # components
-    vd = list(f.vdims)
-    names = list(pr["vdims_arg"]) if pr.get("vdims_arg") is not None else _rmap(f)
-    U = np.asarray(np.ma.getdata(q.U), dtype=float).reshape(n[1], n[0]).T
-    V = np.asarray(np.ma.getdata(q.V), dtype=float).reshape(n[1], n[0]).T
-    mask = np.broadcast_to(np.asarray(getattr(q, "Umask", False)), (N,)).reshape(n[1], n[0]).T | np.isnan(U) | np.isnan(V)
-    shown = ~mask
-    wantU = arr0[..., vd.index(names[0])] if names[0] is not None else np.zeros(n)
-    wantV = arr0[..., vd.index(names[1])] if names[1] is not None else np.zeros(n)
-    ctx.require(np.array_equal(U[shown], wantU[shown]) and np.array_equal(V[shown], wantV[shown]), "C20.vector_components",
-                "arrow components differ from the mapped field components of the cell", names=names, vdims=vd)
-    ctx.require(not np.any(shown & ~valid), "C20.hidden_invalid", "vector: an invalid cell has an arrow", cells=np.argwhere(shown & ~valid)[:5])
-    ctx.require(np.all(shown[valid]), "C20.hidden_invalid", "vector: a valid cell has no arrow", cells=np.argwhere(~shown & valid)[:5])
-    # colour
-    C = q.get_array()
-    if caux is not None and pr["use_color"]:
-        wantC = _sample(caux0, n)
-    elif pr["use_color"] and f.nvdim == 3:
-        rest = [v for v in vd if v not in names]
-        wantC = arr0[..., vd.index(rest[0])] if len(rest) == 1 else None
-    else:
-        wantC = None
-    if wantC is None:
-        ctx.require(C is None, "C20.vector_colour", "a colour array was handed over although colouring is off / impossible", got=None if C is None else np.asarray(C)[:6])
-    else:
-        okc = C is not None and np.asarray(C).size == N
-        if okc:
-            Cd = np.asarray(np.ma.getdata(C), dtype=float).reshape(n[1], n[0]).T
-            okc = np.array_equal(Cd[shown], wantC[shown])
-        ctx.require(okc, "C20.vector_colour", "colour array differs from the third component / the colour field at the cell centres",
-                    mode=None if caux is None else pr["color"]["mode"])
+    _verify_quiver(ctx, ax, f, arr0, valid, m, pr.get("vdims_arg"), pr["use_color"], caux0, "C20.vector_components", "vector",
+                   cmode=None if caux is None else pr["color"]["mode"])
 
 
-def _check_contour(pr, ctx):
-    spec = pr["f"]
-    f = _field(spec)
-    n = [int(k) for k in f.mesh.n]
-    faux = _aux(spec, pr["filter"]) if pr.get("filter") else None
-    arr0 = f.array.copy()
-    valid, fnz = _hidden_sets(f, spec, faux, n)
-    before, fb = _snap(f), (None if faux is None else _snap(faux))
-    ax = _new_ax()
+def _record_contour(ax):
+    """wrap the bound Axes.contour of this Axes instance; returns the list the (args, kwargs) of every call are appended to"""
     rec = []
     real = ax.contour
 
@@ -528,44 +750,44 @@ def _check_contour(pr, ctx):
         return real(*a, **k)
 
     ax.contour = recorder
-    kw = {"colorbar": pr["colorbar"]}
-    if pr.get("multiplier") is not None:
-        kw["multiplier"] = pr["multiplier"]
-    if faux is not None:
-        kw["filter_field"] = faux
-    r, e = raises(Exception, f.mpl.contour, ax=ax, **kw)
+    return rec
+
+
+def _verify_contour(ctx, ax, rec, r, e, f, arr0, valid, fnz, has_filter, mult, linear, what="contour"):
+    """what mpl.contour handed to Axes.contour (rec) and the resulting level lines; r, e: outcome of the call.
+    Returns False when the call must be regarded as failed."""
+    n = [int(k) for k in f.mesh.n]
     if r:
         nshown = int(np.sum(valid & fnz))
         if rec and nshown < 4:          # matplotlib cannot contour (almost) empty data; the data handed over is still checked below
             pass
         else:
-            ctx.require(False, "C20.contour_values", "mpl.contour raised", sig="raised:" + type(e).__name__, error=repr(e))
+            ctx.require(False, "C20.contour_values", "%s: mpl.contour raised" % what, sig="raised:" + type(e).__name__, error=repr(e))
             if not rec:
-                return
-    _frame(ctx, f, before, [("filter_field", faux, fb)])
-    ctx.require(len(rec) == 1 and len(rec[0][0]) >= 3, "C20.contour_values", "Axes.contour was not called once with (X, Y, Z)", got=len(rec))
+                return False
+    ctx.require(len(rec) == 1 and len(rec[0][0]) >= 3, "C20.contour_values", "%s: Axes.contour was not called once with (X, Y, Z)" % what, got=len(rec))
     if not (len(rec) == 1 and len(rec[0][0]) >= 3):
-        return
-    m = pr["multiplier"] if pr.get("multiplier") is not None else _default_multiplier(np.abs(np.asarray(f.mesh.region.pmax) - np.asarray(f.mesh.region.pmin)))
+        return False
+    m = mult if mult is not None else _default_multiplier(np.abs(np.asarray(f.mesh.region.pmax) - np.asarray(f.mesh.region.pmin)))
     if not r:
-        m = _mult_and_labels(ax, f, pr, ctx)
+        m = _mult_and_labels(ax, f, {"multiplier": mult}, ctx)
     Xa, Ya, Z = (np.asarray(v, dtype=float) for v in rec[0][0][:3])
     (c0, c1), (s0, s1) = _centres(f, m)
     okpos = Xa.shape == (n[0],) and Ya.shape == (n[1],) and np.all(np.abs(Xa - c0) <= 8 * EPS * s0) and np.all(np.abs(Ya - c1) <= 8 * EPS * s1)
-    ctx.require(okpos, "C20.positions", "contour grid differs from the cell centres / multiplier", gotx=Xa, wantx=c0, goty=Ya, wanty=c1)
+    ctx.require(okpos, "C20.positions", "%s: contour grid differs from the cell centres / multiplier" % what, gotx=Xa, wantx=c0, goty=Ya, wanty=c1)
     okz = Z.shape == (n[1], n[0])
-    ctx.require(okz, "C20.contour_values", "Z is not (n1, n0)", got=Z.shape)
+    ctx.require(okz, "C20.contour_values", "%s: Z is not (n1, n0)" % what, got=Z.shape)
     if not okz:
-        return
+        return False
     shown = ~np.isnan(Z).T
-    ctx.require(np.array_equal(Z.T[shown], arr0[..., 0][shown]), "C20.contour_values", "a contour value differs from the field value of its cell")
-    _require_hidden(shown, valid, fnz, faux is not None, ctx, "contour")
+    ctx.require(np.array_equal(Z.T[shown], arr0[..., 0][shown]), "C20.contour_values", "%s: a contour value differs from the field value of its cell" % what)
+    _require_hidden(shown, valid, fnz, has_filter, ctx, what)
     if r:
-        return
+        return True
     css = [c for c in ax.collections if isinstance(c, ContourSet)]
-    ctx.require(len(css) == 1, "C20.contour_values", "expected one ContourSet on the axes", got=len(css))
-    if spec.get("linear") is not None and len(css) == 1:
-        a, b, c = spec["linear"]
+    ctx.require(len(css) == 1, "C20.contour_values", "%s: expected one ContourSet on the axes" % what, got=len(css))
+    if linear is not None and len(css) == 1:
+        a, b, c = linear
         cs = css[0]
         vals = arr0[..., 0]
         rngv = float(vals.max() - vals.min())
@@ -579,10 +801,32 @@ def _check_contour(pr, ctx):
         if cnt == 0:
             ctx.trivial()
         ctx.require(worst <= 1e-9 * max(rngv, abs(c)), "C20.contour_values", "level lines of a linear field are not where a*x+b*y+c == level", worst=worst, value_range=rngv)
+    return True
 
 
-def _lightness_oracle(f, arr0, spec, pr, laux0, n):
-    """(rgb (n0, n1, 3), note) from the statement: hue = in-plane angle / 2 pi, lightness = normalised lightness field"""
+def _check_contour(pr, ctx):
+    spec = pr["f"]
+    f = _field(spec)
+    n = [int(k) for k in f.mesh.n]
+    faux = _aux(spec, pr["filter"]) if pr.get("filter") else None
+    arr0 = f.array.copy()
+    valid, fnz = _hidden_sets(f, spec, faux, n)
+    before, fb = _snap(f), (None if faux is None else _snap(faux))
+    ax = _new_ax()
+    rec = _record_contour(ax)
+    kw = {"colorbar": pr["colorbar"]}
+    if pr.get("multiplier") is not None:
+        kw["multiplier"] = pr["multiplier"]
+    if faux is not None:
+        kw["filter_field"] = faux
+    r, e = raises(Exception, f.mpl.contour, ax=ax, **kw)
+    if not (r and not rec):
+        _frame(ctx, f, before, [("filter_field", faux, fb)])
+    _verify_contour(ctx, ax, rec, r, e, f, arr0, valid, fnz, faux is not None, pr.get("multiplier"), spec.get("linear"))
+
+
+def _lightness_oracle(f, arr0, clim, laux0, n):
+    """rgb (n0, n1, 3) from the statement: hue = in-plane angle / 2 pi, lightness = normalised lightness field"""
     nv = f.nvdim
     if nv == 1:
         ang = arr0[..., 0]
@@ -603,7 +847,7 @@ def _lightness_oracle(f, arr0, spec, pr, laux0, n):
         light = _sample(laux0, n)
     if light is None:
         return None
-    lo, hi = (0.0, 1.0) if pr.get("clim") is None else pr["clim"]
+    lo, hi = (0.0, 1.0) if clim is None else clim
     l = light - light.min()
     if l.max() != 0:
         l = l / l.max()
@@ -614,6 +858,47 @@ def _lightness_oracle(f, arr0, spec, pr, laux0, n):
         for j in range(n[1]):
             rgb[i, j] = colorsys.hls_to_rgb(float(h[i, j]), float(l[i, j]), 1.0)
     return rgb
+
+
+def _verify_lightness(ctx, ax, r, e, f, arr0, valid, fnz, has_filter, mult, clim, laux0, lmode=None, what="lightness"):
+    """outcome (r, e) and image of a mpl.lightness call"""
+    n = [int(k) for k in f.mesh.n]
+    x_y = _rmap(f) if f.nvdim > 1 else [None, None]
+    no_inplane = f.nvdim > 1 and x_y[0] is None and x_y[1] is None
+    if no_inplane:
+        # no component is mapped to either plane direction: there is no in-plane angle, the plot must be refused
+        ctx.require(r and len(ax.images) == 0, "C20.refuse", "%s: lightness plot of a vector field without in-plane components not refused" % what)
+        return
+    if r:
+        sig = "raised:" + type(e).__name__
+        if isinstance(e, TypeError) and f.nvdim > 1 and (x_y[0] is None) != (x_y[1] is None):
+            sig = "inplane_angle-swapped-None-conditions(one in-plane component)"
+        if isinstance(e, IndexError) and 1 in n:
+            sig = "hls2rgb-squeeze-drops-length-1-axis(n==1)"
+        ctx.require(False, "C20.lightness_colours", "%s: mpl.lightness raised" % what, sig=sig, error=repr(e), in_plane=x_y)
+        return
+    m = _mult_and_labels(ax, f, {"multiplier": mult}, ctx)
+    ctx.require(len(ax.images) == 1, "C20.lightness_colours", "%s: expected exactly one image on the main axes" % what, got=len(ax.images))
+    if len(ax.images) != 1:
+        return
+    im = ax.images[0]
+    _check_extent(im, f, m, ctx)
+    A = np.asarray(im.get_array(), dtype=float)
+    oks = A.shape == (n[1], n[0], 4)
+    ctx.require(oks, "C20.lightness_colours", "%s: image is not an (n1, n0, 4) RGBA array" % what, got=A.shape)
+    if not oks:
+        return
+    A = np.transpose(A, (1, 0, 2))
+    shown = A[..., 3] > 0
+    _require_hidden(shown, valid, fnz, has_filter, ctx, what)
+    want = _lightness_oracle(f, arr0, clim, laux0, n)
+    if want is None:
+        ctx.trivial()
+        return
+    ok = np.all(np.abs(A[..., :3][shown] - want[shown]) <= 1e-12) and np.all(A[..., 3][shown] == 1.0)
+    ctx.require(ok, "C20.lightness_colours", "%s: RGB of a drawn cell differs from hls_to_rgb(angle/2pi, normalised lightness, 1)" % what,
+                worst=float(np.max(np.abs(A[..., :3][shown] - want[shown]))) if np.any(shown) else None,
+                lightness=lmode, in_plane=x_y)
 
 
 def _check_lightness(pr, ctx):
@@ -639,44 +924,34 @@ def _check_lightness(pr, ctx):
         kw["lightness_field"] = laux
     if pr.get("clim") is not None:
         kw["clim"] = tuple(pr["clim"])
-    x_y = _rmap(f) if f.nvdim > 1 else [None, None]
-    no_inplane = f.nvdim > 1 and x_y[0] is None and x_y[1] is None
     r, e = raises(Exception, f.mpl.lightness, ax=ax, **kw)
     _frame(ctx, f, before, [("filter_field", faux, fb), ("lightness_field", laux, lb)])
-    if no_inplane:
-        # no component is mapped to either plane direction: there is no in-plane angle, the plot must be refused
-        ctx.require(r and len(ax.images) == 0, "C20.refuse", "lightness plot of a vector field without in-plane components not refused")
-        return
-    if r:
-        sig = "raised:" + type(e).__name__
-        if isinstance(e, TypeError) and f.nvdim > 1 and (x_y[0] is None) != (x_y[1] is None):
-            sig = "inplane_angle-swapped-None-conditions(one in-plane component)"
-        if isinstance(e, IndexError) and 1 in n:
-            sig = "hls2rgb-squeeze-drops-length-1-axis(n==1)"
-        ctx.require(False, "C20.lightness_colours", "mpl.lightness raised", sig=sig, error=repr(e), in_plane=x_y)
-        return
-    m = _mult_and_labels(ax, f, pr, ctx)
-    ctx.require(len(ax.images) == 1, "C20.lightness_colours", "expected exactly one image on the main axes", got=len(ax.images))
-    if len(ax.images) != 1:
-        return
-    im = ax.images[0]
-    _check_extent(im, f, m, ctx)
-    A = np.asarray(im.get_array(), dtype=float)
-    oks = A.shape == (n[1], n[0], 4)
-    ctx.require(oks, "C20.lightness_colours", "image is not an (n1, n0, 4) RGBA array", got=A.shape)
-    if not oks:
-        return
-    A = np.transpose(A, (1, 0, 2))
-    shown = A[..., 3] > 0
-    _require_hidden(shown, valid, fnz, faux is not None, ctx, "lightness")
-    want = _lightness_oracle(f, arr0, spec, pr, laux0, n)
-    if want is None:
-        ctx.trivial()
-        return
-    ok = np.all(np.abs(A[..., :3][shown] - want[shown]) <= 1e-12) and np.all(A[..., 3][shown] == 1.0)
-    ctx.require(ok, "C20.lightness_colours", "RGB of a drawn cell differs from hls_to_rgb(angle/2pi, normalised lightness, 1)",
-                worst=float(np.max(np.abs(A[..., :3][shown] - want[shown]))) if np.any(shown) else None,
-                lightness=None if laux is None else pr["lightness"]["mode"], in_plane=x_y)
+    _verify_lightness(ctx, ax, r, e, f, arr0, valid, fnz, faux is not None, pr.get("multiplier"), pr.get("clim"), laux0,
+                      lmode=None if laux is None else pr["lightness"]["mode"])
+
+
+def _verify_call(ctx, ax, f, arr0, valid, mult, fnz=None, has_filter=False, vdims_arg=None, use_color=False, caux0=None, what="mpl()"):
+    """artists of a successful field.mpl(): image of the out-of-plane component (scalar field: the field itself) hidden where invalid
+    (or where the filter field given through scalar_kw is zero), arrows of the in-plane components (options given through vector_kw)"""
+    n = [int(k) for k in f.mesh.n]
+    if fnz is None:
+        fnz = np.ones(n, dtype=bool)
+    m = _mult_and_labels(ax, f, {"multiplier": mult}, ctx)
+    nv = f.nvdim
+    qs = [c for c in ax.collections if isinstance(c, Quiver)]
+    ctx.require(len(ax.images) == (0 if nv == 2 else 1) and len(qs) == (0 if nv == 1 else 1), "C20.call", "%s: wrong artists for the number of components" % what,
+                images=len(ax.images), quivers=len(qs), nvdim=nv)
+    vd = None if f.vdims is None else list(f.vdims)
+    names = _rmap(f) if nv > 1 else None
+    if len(ax.images) == 1:
+        if nv == 1:
+            want = arr0[..., 0]
+        else:
+            rest = [v for v in vd if v not in names]
+            want = arr0[..., vd.index(rest[0])]
+        _verify_image(ctx, ax, f, want, valid, fnz, has_filter, m, "C20.call", what)
+    if len(qs) == 1:
+        _verify_quiver(ctx, ax, f, arr0, valid, m, vdims_arg, use_color, caux0, "C20.call", what)
 
 
 def _check_call(pr, ctx):
@@ -697,48 +972,351 @@ def _check_call(pr, ctx):
         ctx.require(False, "C20.call", "field.mpl() raised", sig="raised:" + type(e).__name__, error=repr(e))
         return
     _frame(ctx, f, before)
-    m = _mult_and_labels(ax, f, pr, ctx)
-    nv = f.nvdim
+    _verify_call(ctx, ax, f, arr0, valid, pr.get("multiplier"))
+
+
+# --------------------------------------------------------------------------------------------- histories of calls sharing argument objects
+# Argument description language (JSON): scalars as they are; list -> list; dict without "__t" -> dict (key order kept);
+# {"__t": "ref", "name": k} -> THE object pool[k] of the environment (one object per environment, shared by every use);
+# {"__t": "aux", "name": k} -> THE auxiliary scalar field aux[k]; {"__t": "tuple", "v": [...]}; {"__t": "array", "v": [...], "dtype": d};
+# {"__t": "cmap", "name": s} -> a Colormap object (matplotlib.colormaps[s], a private copy).
+def _ref(name):
+    return {"__t": "ref", "name": name}
+
+
+def _auxref(name):
+    return {"__t": "aux", "name": name}
+
+
+def _resolve(d, pool):
+    """description with every ref replaced by the description it points to (aux / tuple / array / cmap nodes are kept)"""
+    if isinstance(d, dict):
+        t = d.get("__t")
+        if t == "ref":
+            return _resolve(pool[d["name"]], pool)
+        if t == "tuple":
+            return {"__t": "tuple", "v": [_resolve(v, pool) for v in d["v"]]}
+        if t is not None:
+            return d
+        return {k: _resolve(v, pool) for k, v in d.items()}
+    if isinstance(d, list):
+        return [_resolve(v, pool) for v in d]
+    return d
+
+
+def _plain(d):
+    """resolved description -> plain python value (tuple / array nodes become lists); aux / cmap nodes are kept"""
+    if isinstance(d, dict):
+        if d.get("__t") in ("tuple", "array"):
+            return [_plain(v) for v in d["v"]]
+        if d.get("__t") is not None:
+            return d
+        return {k: _plain(v) for k, v in d.items()}
+    if isinstance(d, list):
+        return [_plain(v) for v in d]
+    return d
+
+
+def _auxname(d):
+    return d["name"] if isinstance(d, dict) and d.get("__t") == "aux" else None
+
+
+def _mask_of(spec, mask):
+    return np.random.default_rng(mask["seed"]).random([int(k) for k in spec["n"]]) >= mask["p"]
+
+
+class _Env:
+    """one world of a history: the field objects, the auxiliary fields and the pool of argument objects, each built once from the params"""
+
+    def __init__(self, pr):
+        self.pr = pr
+        self.fields = [_field(s) for s in pr["fields"]]
+        self.aux = {k: _aux(pr["fields"][0], a) for k, a in (pr.get("aux") or {}).items()}
+        self.aux0 = {k: a.array.copy() for k, a in self.aux.items()}
+        self.pool = {}
+        for k, d in (pr.get("pool") or {}).items():     # in order: later entries may refer to earlier ones
+            self.pool[k] = self.build(d)
+        self.plotters = [f.mpl for f in self.fields] if pr.get("keep_plotter") else None
+
+    def build(self, d):
+        if isinstance(d, dict):
+            t = d.get("__t")
+            if t == "ref":
+                return self.pool[d["name"]]
+            if t == "aux":
+                return self.aux[d["name"]]
+            if t == "tuple":
+                return tuple(self.build(v) for v in d["v"])
+            if t == "array":
+                return np.array(d["v"], dtype=d.get("dtype", "float64"))
+            if t == "cmap":
+                return matplotlib.colormaps[d["name"]]
+            return {k: self.build(v) for k, v in d.items()}
+        if isinstance(d, list):
+            return [self.build(v) for v in d]
+        return d
+
+    def mutate(self, step):
+        """the change of a field the caller makes before this step (new validity mask / new values)"""
+        mu = step.get("pre")
+        if not mu:
+            return
+        f = self.fields[step["field"]]
+        spec = self.pr["fields"][step["field"]]
+        if mu["what"] == "valid":
+            f.valid = _mask_of(spec, mu)
+        elif mu["what"] == "array":
+            f.array = np.random.default_rng(mu["seed"]).normal(size=f.array.shape) * spec.get("vscale", 1.0)
+        elif mu["what"] == "array_inplace":
+            f.array[...] = f.array[::-1, ::-1] * mu["factor"]
+
+    def kwargs(self, step):
+        kw = {k: self.build(d) for k, d in step["kwargs"].items()}
+        return kw
+
+    def call(self, step, ax, kw):
+        """run the step: returns (raised, exception, axes the plot went to)"""
+        f = self.fields[step["field"]]
+        plotter = self.plotters[step["field"]] if self.plotters is not None else f.mpl
+        target = plotter if step["entry"] == "call" else getattr(plotter, step["entry"])
+        full = dict(kw)
+        if step.get("expand"):
+            full.update(self.pool[step["expand"]])          # mpl.scalar(**kw): the dict itself is copied by python, its values are shared
+        if step.get("multiplier") is not None:
+            full["multiplier"] = step["multiplier"]
+        if ax is not None:
+            full["ax"] = ax
+        r, e = raises(Exception, target, **full)
+        if ax is None and not r:                            # the library made its own figure (figsize given): first axes of the current figure
+            axs = plt.gcf().get_axes()
+            ax = axs[0] if axs else None
+        return r, e, ax
+
+
+def _eff(step, pool):
+    """keyword arguments of the step as plain descriptions (refs resolved)"""
+    d = {k: _resolve(v, pool) for k, v in step["kwargs"].items()}
+    if step.get("expand"):
+        d.update(_resolve(pool[step["expand"]], pool))
+    return d
+
+
+def _deep(o):
+    """deep snapshot of an argument object"""
+    if isinstance(o, df.Field):
+        return ("Field", _snap(o))
+    if isinstance(o, dict):
+        return ("dict", [(repr(k), _deep(v)) for k, v in o.items()])
+    if isinstance(o, (list, tuple)):
+        return (type(o).__name__, [_deep(v) for v in o])
+    if isinstance(o, np.ndarray):
+        return ("ndarray", o.dtype.str, tuple(o.shape), o.tobytes())
+    if isinstance(o, matplotlib.colors.Colormap):
+        return ("Colormap", o.name, int(o.N), tuple(float(v) for v in o.get_bad()), tuple(float(v) for v in o.get_under()), tuple(float(v) for v in o.get_over()))
+    return (type(o).__name__, repr(o))
+
+
+def _deep_diff(a, b, path="", out=None):
+    out = [] if out is None else out
+    if a == b:
+        return out
+    if a[0] != b[0]:
+        out.append("%s: type %s -> %s" % (path or ".", a[0], b[0]))
+    elif a[0] == "dict":
+        ka, kb = [k for k, _ in a[1]], [k for k, _ in b[1]]
+        da, db = dict(a[1]), dict(b[1])
+        for k in kb:
+            if k not in da:
+                out.append("%s: key %s added" % (path or ".", k))
+        for k in ka:
+            if k not in db:
+                out.append("%s: key %s removed" % (path or ".", k))
+            else:
+                _deep_diff(da[k], db[k], "%s[%s]" % (path, k), out)
+        if [k for k in ka if k in db] != [k for k in kb if k in da]:
+            out.append("%s: key order changed" % (path or "."))
+    elif a[0] in ("list", "tuple"):
+        if len(a[1]) != len(b[1]):
+            out.append("%s: length %d -> %d" % (path or ".", len(a[1]), len(b[1])))
+        for i, (x, y) in enumerate(zip(a[1], b[1])):
+            _deep_diff(x, y, "%s[%d]" % (path, i), out)
+    elif a[0] == "Field":
+        out.append("%s: Field changed (%s)" % (path or ".", ", ".join(_diff_snap(a[1], b[1]))))
+    else:
+        out.append("%s: %s changed" % (path or ".", a[0]))
+    return out
+
+
+def _nanarr(a, to_ij=None):
+    """float array with NaN for masked / invalid entries (None stays None)"""
+    if a is None:
+        return None
+    m = np.ma.masked_invalid(np.ma.asarray(a).astype(float))
+    return np.ma.filled(m, np.nan)
+
+
+def _clim_of(art):
+    lo, hi = art.get_clim()
+    return np.array([np.nan if lo is None else float(lo), np.nan if hi is None else float(hi)])
+
+
+def _observe(ax, rec):
+    """what matplotlib was handed on this axes: a flat dict name -> array / string / number"""
+    o = {"labels": [ax.get_xlabel(), ax.get_ylabel()], "aspect": str(ax.get_aspect()), "n_images": len(ax.images)}
+    for k, im in enumerate(ax.images):
+        p = "image%d." % k
+        o[p + "data"] = _nanarr(im.get_array())
+        o[p + "extent"] = np.array([float(v) for v in im.get_extent()])
+        o[p + "origin"] = str(getattr(im, "origin", None))
+        o[p + "clim"] = _clim_of(im)
+        o[p + "cmap"] = str(im.get_cmap().name)
     qs = [c for c in ax.collections if isinstance(c, Quiver)]
-    ctx.require(len(ax.images) == (0 if nv == 2 else 1) and len(qs) == (0 if nv == 1 else 1), "C20.call", "wrong artists for the number of components",
-                images=len(ax.images), quivers=len(qs), nvdim=nv)
-    vd = None if f.vdims is None else list(f.vdims)
-    names = _rmap(f) if nv > 1 else None
-    if len(ax.images) == 1:
-        im = ax.images[0]
-        _check_extent(im, f, m, ctx)
-        A = np.ma.masked_invalid(im.get_array())
-        if nv == 1:
-            want = arr0[..., 0]
+    o["n_quivers"] = len(qs)
+    for k, q in enumerate(qs):
+        p = "quiver%d." % k
+        for nm in ("X", "Y", "U", "V"):
+            o[p + nm] = _nanarr(getattr(q, nm))
+        o[p + "hidden"] = np.broadcast_to(np.asarray(getattr(q, "Umask", False)), np.asarray(q.U).shape).copy()
+        o[p + "C"] = _nanarr(q.get_array())
+        o[p + "pivot"] = str(q.pivot)
+        o[p + "clim"] = _clim_of(q)
+        o[p + "cmap"] = str(q.get_cmap().name)
+    css = [c for c in ax.collections if isinstance(c, ContourSet)]
+    o["n_contoursets"] = len(css)
+    for k, cs in enumerate(css):
+        o["contourset%d.levels" % k] = np.asarray(cs.levels, dtype=float)
+        o["contourset%d.cmap" % k] = str(cs.get_cmap().name)
+    o["n_contour_calls"] = len(rec) if rec is not None else -1
+    for k, (a, kw) in enumerate(rec or []):
+        for j, v in enumerate(a):
+            o["contour%d.arg%d" % (k, j)] = _nanarr(v)
+        o["contour%d.kwargs" % k] = repr(_deep(kw))
+    fig = ax.figure
+    o["colorbar_labels"] = [a.get_ylabel() for a in fig.get_axes() if ("cb_%d" % id(ax)) in str(a.get_label())]
+    return o
+
+
+def _obs_diff(a, b):
+    """names of the observations that differ (arrays: exact equality, NaN == NaN), with the first differing positions"""
+    out = []
+    for k in sorted(set(a) | set(b)):
+        if k not in a or k not in b:
+            out.append("%s: only in the %s call" % (k, "fresh" if k in b else "history"))
+            continue
+        x, y = a[k], b[k]
+        if isinstance(x, np.ndarray) or isinstance(y, np.ndarray):
+            if x is None or y is None or np.shape(x) != np.shape(y):
+                out.append("%s: shape %s vs %s" % (k, None if x is None else np.shape(x), None if y is None else np.shape(y)))
+            elif not np.array_equal(x, y, equal_nan=(np.asarray(x).dtype.kind == "f")):
+                xx, yy = np.asarray(x), np.asarray(y)
+                ne = ~((xx == yy) | ((xx != xx) & (yy != yy))) if xx.dtype.kind == "f" else xx != yy
+                out.append("%s: differs at %s" % (k, np.argwhere(ne)[:4].tolist()))
+        elif x != y:
+            out.append("%s: %r vs %r" % (k, x, y))
+    return out
+
+
+def _run_fresh(pr, k):
+    """step k alone in a fresh world: freshly built fields (with the caller's changes up to step k applied), fresh argument objects,
+    fresh figure.  Returns ("raised", exception type) or ("ok", observation)."""
+    env = _Env(dict(pr, keep_plotter=False))
+    for st in pr["steps"][:k + 1]:
+        env.mutate(st)
+    st = pr["steps"][k]
+    ax = None if st.get("own_axes") else _new_ax()
+    rec = None if ax is None else _record_contour(ax)
+    r, e, ax = env.call(st, ax, env.kwargs(st))
+    res = ("raised", type(e).__name__) if r else ("ok", _observe(ax, rec))
+    plt.close("all")
+    return res
+
+
+def _check_history(pr, ctx):
+    steps = pr["steps"]
+    # fresh references first, in reverse order (state left in the library by the history cannot reach them in the history's order)
+    fresh = [None] * len(steps)
+    for k in reversed(range(len(steps))):
+        fresh[k] = _run_fresh(pr, k)
+    env = _Env(pr)
+    pool_d = pr.get("pool") or {}
+    fig = plt.figure(figsize=(4 * len(steps), 3)) if pr.get("same_fig") else None
+    for k, st in enumerate(steps):
+        env.mutate(st)
+        f = env.fields[st["field"]]
+        spec = pr["fields"][st["field"]]
+        n = [int(v) for v in f.mesh.n]
+        what = "step %d (%s)" % (k, "mpl()" if st["entry"] == "call" else "mpl." + st["entry"])
+        arr0 = f.array.copy()
+        valid = np.asarray(f.valid).astype(bool).copy()
+        kw = env.kwargs(st)
+        snaps_f = [_snap(g) for g in env.fields]
+        snaps_a = {nm: _snap(a) for nm, a in env.aux.items()}
+        snap_args = _deep({"call": kw, "pool": env.pool})
+        if st.get("own_axes"):
+            ax, rec = None, None
         else:
-            rest = [v for v in vd if v not in names]
-            want = arr0[..., vd.index(rest[0])]
-        if A.shape == (n[1], n[0]):
-            shown = ~np.ma.getmaskarray(A).T
-            data = np.ma.getdata(A).T
-            ctx.require(np.array_equal(data[shown], want[shown]), "C20.call", "image differs from the out-of-plane component")
-            _require_hidden(shown, valid, np.ones(n, dtype=bool), False, ctx, "mpl()")
-        else:
-            ctx.require(False, "C20.call", "image array is not (n1, n0)", got=A.shape)
-    if len(qs) == 1:
-        q = qs[0]
-        N = n[0] * n[1]
-        if np.asarray(q.U).size == N:
-            U = np.asarray(np.ma.getdata(q.U), dtype=float).reshape(n[1], n[0]).T
-            V = np.asarray(np.ma.getdata(q.V), dtype=float).reshape(n[1], n[0]).T
-            mask = np.broadcast_to(np.asarray(getattr(q, "Umask", False)), (N,)).reshape(n[1], n[0]).T | np.isnan(U) | np.isnan(V)
-            shown = ~mask
-            wantU, wantV = arr0[..., vd.index(names[0])], arr0[..., vd.index(names[1])]
-            ctx.require(np.array_equal(U[shown], wantU[shown]) and np.array_equal(V[shown], wantV[shown]), "C20.call", "arrows differ from the in-plane components", names=names)
-            ctx.require(np.array_equal(shown, valid), "C20.hidden_invalid", "mpl(): arrows are not exactly on the valid cells")
-            (c0, c1), (s0, s1) = _centres(f, m)
-            X = np.asarray(q.X, dtype=float).reshape(n[1], n[0]).T
-            Y = np.asarray(q.Y, dtype=float).reshape(n[1], n[0]).T
-            ctx.require(np.all(np.abs(X - c0[:, None]) <= 8 * EPS * s0) and np.all(np.abs(Y - c1[None, :]) <= 8 * EPS * s1), "C20.positions",
-                        "mpl(): arrow positions differ from the cell centres / multiplier")
-            ctx.require(q.get_array() is None, "C20.call", "mpl(): arrows are coloured although the image encodes the third component")
-        else:
-            ctx.require(False, "C20.call", "quiver has not one arrow per cell")
+            ax = fig.add_subplot(1, len(steps), k + 1) if fig is not None else _new_ax()
+            rec = _record_contour(ax)
+        r, e, ax = env.call(st, ax, kw)
+        # (a) frame: fields, auxiliary fields, every argument object
+        for i, g in enumerate(env.fields):
+            d = _diff_snap(snaps_f[i], _snap(g))
+            ctx.require(not d, "C20.frame_field", "%s modified %s" % (what, "the plotted field" if i == st["field"] else "another field of the history"), changed=d)
+        for nm, a in env.aux.items():
+            d = _diff_snap(snaps_a[nm], _snap(a))
+            ctx.require(not d, "C20.frame_aux", "%s modified the user-supplied %s field" % (what, nm), changed=d)
+        d = _deep_diff(snap_args, _deep({"call": kw, "pool": env.pool}))
+        ctx.require(not d, "C20.frame_args", "%s modified an argument object of the caller" % what, sig="history:args-modified:" + st["entry"], changed=d[:8])
+        # (b) the same as a fresh call with fresh equal arguments
+        if st.get("refused"):
+            drawn = 0 if ax is None else len(ax.images) + len(ax.collections)
+            ctx.require(r and drawn == 0, "C20.refuse", "%s: not refused / something drawn: %s" % (what, st["refused"]), drawn=drawn)
+            ctx.require(fresh[k][0] == "raised", "C20.history_independent", "%s refused in the history but not as a fresh call" % what, sig="history:" + st["entry"])
+            continue
+        if r and not (st["entry"] == "contour" and rec):
+            ctx.require(fresh[k][0] == "raised", "C20.history_independent", "%s raised in the history but not as a fresh call with fresh equal arguments" % what,
+                        sig="history:" + st["entry"], error=repr(e))
+        elif not r:
+            okf = fresh[k][0] == "ok"
+            d = _obs_diff(_observe(ax, rec), fresh[k][1]) if okf else ["the fresh call raised " + str(fresh[k][1])]
+            ctx.require(not d, "C20.history_independent", "%s drew something else than a fresh call with fresh equal arguments on an equal field" % what,
+                        sig="history:" + st["entry"], differs=d[:8], shared=sorted(pool_d))
+        # ... and the field's own numbers (independent oracle, arguments as the caller described them)
+        eff = _plain(_eff(st, pool_d))
+        mult = st.get("multiplier")
+        entry = st["entry"]
+        if entry == "call":
+            skw, vkw = eff.get("scalar_kw") or {}, eff.get("vector_kw") or {}
+            fa, ca = _auxname(skw.get("filter_field")), _auxname(vkw.get("color_field"))
+            if r:
+                ctx.require(False, "C20.call", "%s: field.mpl() raised" % what, sig="raised:" + type(e).__name__, error=repr(e))
+                continue
+            fnz = np.ones(n, dtype=bool) if fa is None else _sample(env.aux0[fa], n) != 0
+            _verify_call(ctx, ax, f, arr0, valid, mult, fnz, fa is not None, vkw.get("vdims"), bool(vkw.get("use_color", False)), None if ca is None else env.aux0[ca], what=what)
+        elif entry == "scalar":
+            fa = _auxname(eff.get("filter_field"))
+            if r:
+                ctx.require(False, "C20.scalar_values", "%s: mpl.scalar raised" % what, sig="raised:" + type(e).__name__, error=repr(e))
+                continue
+            fnz = np.ones(n, dtype=bool) if fa is None else _sample(env.aux0[fa], n) != 0
+            m = _mult_and_labels(ax, f, {"multiplier": mult}, ctx)
+            _verify_image(ctx, ax, f, arr0[..., 0], valid, fnz, fa is not None, m, "C20.scalar_values", what)
+        elif entry == "vector":
+            ca = _auxname(eff.get("color_field"))
+            if r:
+                ctx.require(False, "C20.vector_components", "%s: mpl.vector raised" % what, sig="raised:" + type(e).__name__, error=repr(e))
+                continue
+            m = _mult_and_labels(ax, f, {"multiplier": mult}, ctx)
+            _verify_quiver(ctx, ax, f, arr0, valid, m, eff.get("vdims"), bool(eff.get("use_color", True)), None if ca is None else env.aux0[ca],
+                           "C20.vector_components", what)
+        elif entry == "contour":
+            fa = _auxname(eff.get("filter_field"))
+            fnz = np.ones(n, dtype=bool) if fa is None else _sample(env.aux0[fa], n) != 0
+            _verify_contour(ctx, ax, rec, r, e, f, arr0, valid, fnz, fa is not None, mult, spec.get("linear"), what=what)
+        elif entry == "lightness":
+            fa, la = _auxname(eff.get("filter_field")), _auxname(eff.get("lightness_field"))
+            fnz = np.ones(n, dtype=bool) if fa is None else _sample(env.aux0[fa], n) != 0
+            _verify_lightness(ctx, ax, r, e, f, arr0, valid, fnz, fa is not None, mult, eff.get("clim"), None if la is None else env.aux0[la], what=what)
 
 
 def _check_refuse_ndim(pr, ctx):
